@@ -753,7 +753,23 @@ func hostilePacket(rt *rapid.T, hs hostileSetup) []byte {
 		if typ == 6 {
 			fl = 2
 		}
-		switch rapid.IntRange(0, 3).Draw(rt, "how") {
+		switch rapid.IntRange(0, 4).Draw(rt, "how") {
+		case 4: // a plausible identifier (the one next in line among them) with surplus bytes behind it
+			id := id1()
+			if typ >= 5 && typ <= 7 {
+				id = id2()
+			}
+			if typ == 9 || typ == 11 {
+				id = uint16(rapid.SampledFrom([]int{0x6000, 0x4000}).Draw(rt, "rid"))
+			}
+			k := rapid.IntRange(1, 2).Draw(rt, "surplus")
+			p = append([]byte{typ<<4 | fl, byte(2 + k), byte(id >> 8), byte(id)}, bytes.Repeat([]byte{0}, k)...)
+			if typ == 13 {
+				p = []byte{0xd0, 1, 0}
+			}
+			if typ == 9 {
+				p = []byte{0x90, 3, 0x60, 0, 0} // (a SUBACK has no fixed length)
+			}
 		case 0: // wrong remaining length
 			n := rapid.SampledFrom([]int{0, 1, 3, 4}).Draw(rt, "n")
 			p = append([]byte{typ<<4 | fl, byte(n)}, bytes.Repeat([]byte{0x80}, n)...)
